@@ -1060,7 +1060,7 @@ func (g *gen) deviations() {
 	all := collectTargets(cp, g.s)
 	var cand []target
 	for _, c := range all {
-		if c.x.Implicit || c.x.Kind == KInput || c.x.Kind == KOutput {
+		if c.x.Implicit {
 			continue
 		}
 		imp := false
@@ -1113,6 +1113,25 @@ func (g *gen) deviations() {
 		dm := dms[t.Intn(len(dms))]
 		d := &Deviation{Target: g.finalPath(tg)}
 		x := tg.x
+		if x.Kind == KInput || x.Kind == KOutput {
+			// the input or output of an rpc / action as a whole: not-supported only
+			hasBelow := false
+			for _, c := range cand {
+				for p := c.x.Parent; p != nil; p = p.Parent {
+					if p == x && used[c.x] {
+						hasBelow = true
+					}
+				}
+			}
+			if hasBelow || !t.Chance(1, 2) {
+				used[x] = false
+				continue
+			}
+			gone[x] = true
+			d.Deviates = []*Deviate{{Kind: "not-supported"}}
+			dm.Deviations = append(dm.Deviations, d)
+			continue
+		}
 		isLeafy := x.Kind == KLeaf || x.Kind == KLeafList
 		isListy := x.Kind == KList || x.Kind == KLeafList
 		// invalid deviations first (each makes the whole scenario "must report")
